@@ -79,6 +79,8 @@ package jschema
 //@   loop#1 invariant !buf_sep(buf) && (written ==> !buf_open(buf))
 //@   at call:WriteByte assert (arg1 == 125 || arg1 == 93) ==> !buf_sep(arg0)
 //@   at call:WriteByte assert arg1 == 44 ==> !buf_sep(arg0) && !buf_open(arg0)
+//-  (C06) the member examples come from the guarded builder: the anchor itself is the claim (an anchor that matches no call is a failing obligation)
+//@   at call:Build assert b != nil
 //@   loop#1 decreases len(children) - rangeindex
 
 //@ func (*exampleBuilder).buildObjectKey
@@ -100,6 +102,8 @@ package jschema
 //@   loop#1 invariant !buf_sep(buf) && (written ==> !buf_open(buf))
 //@   at call:WriteByte assert (arg1 == 125 || arg1 == 93) ==> !buf_sep(arg0)
 //@   at call:WriteByte assert arg1 == 44 ==> !buf_sep(arg0) && !buf_open(arg0)
+//-  (C06) the member examples come from the guarded builder: the anchor itself is the claim (an anchor that matches no call is a failing obligation)
+//@   at call:Build assert b != nil
 //@   loop#1 decreases len(children) - rangeindex
 
 // (C06, termination of Example(): a type is expanded only while fewer than two expansions of it are open, and the
